@@ -57,6 +57,8 @@ macro_rules! make_comparison_op_func {
                 (FieldValue::Int64(l), FieldValue::Int64(r)) => l $op r,
                 (FieldValue::Uint64(l), FieldValue::Uint64(r)) => l $op r,
                 (FieldValue::Float64(l), FieldValue::Float64(r)) => l $op r,
+                // Lists are orderable when their contents are, using lexicographic ordering.
+                (FieldValue::List(l), FieldValue::List(r)) => l $op r,
                 _ => $slow_path_handler(left, right),
             }
         }
